@@ -293,7 +293,8 @@ def pick(lst, idx):
 
 
 def _recycle_probe(v, held):
-    """Fixed suffix run after every symbolic prefix: allocate one of each kind, drop every user reference so that
+    """Fixed suffix run after every symbolic prefix: allocate one of each kind, add every removed-but-held entity again,
+    drop every user reference so that
     finalisers of removed-but-held objects run, then allocate twice more. Any id released while its owner is alive
     shows up here as a duplicate among live objects."""
     for rnd in range(3):
@@ -301,6 +302,12 @@ def _recycle_probe(v, held):
             _apply(v, None, held, op, 1)      # desired id -1: automatic allocation
             _check_unique(v, f"recycle probe round {rnd} ({op})")
         if rnd == 0:
+            # objects the caller removed but still holds may be put back ("the object still exists, so it can be reused")
+            import srctools.vmf as vmf
+            for e in list(held):
+                if isinstance(e, vmf.Entity) and not any(e is x for x in v.entities):
+                    v.add_ent(e)
+                    _check_unique(v, "recycle probe: a removed entity added again")
             del held[:]
             gc.collect()
             _check_unique(v, "recycle probe after dropping references")
